@@ -39,6 +39,11 @@ METHOD_IDS = ['f', 'g', 'get', 'set', 'compute', 'print', 'equals', 'dim', 'inse
               'templated', 'norm', 'values', 'a', 'T']
 
 
+def iname(t):
+    """Typename.instantiated_name of a ('tn', ns, name, insts) value"""
+    return t[2] + ''.join(iname(i) for i in t[3])
+
+
 class Profile:
     """size knobs; the defaults are the `quick` profile"""
     def __init__(self, **kw):
@@ -224,7 +229,17 @@ class Gen:
                 lists.append([])
             else:
                 k = r.randint(1, self.p.max_tvalues)
-                lists.append([self.typename(2) for _ in range(k)])
+                vals = []
+                seen = set()
+                for _ in range(k):
+                    v = self.typename(2)
+                    key = iname(v)
+                    # two values with the same instantiated name (a::X and b::X) give two classes of the same
+                    # name and one output file (finding C10-instantiation-name-collision): kept apart here
+                    if key not in seen:
+                        seen.add(key)
+                        vals.append(v)
+                lists.append(vals)
         self.count('template')
         return ('tmpl', names, lists)
 
